@@ -377,6 +377,7 @@ def tasks(tier, seed):
     nmax = 12 if tier == "quick" else 24
     ts = [(verify, (misc.CLOSED_LINSPACE, "heavy", "NodeSample.closed_linspace", None)),
           (verify, (misc.OPEN_LINSPACE, "heavy", "NodeSample.open_linspace", None)),
+          (verify, (misc.FACTORIAL, "heavy", "Math.factorial", None)), (verify, (misc.COMB, "heavy", "Math.comb", None)),
           (task_memo_frames, ()), (task_orders, (nmax,)), (task_length, ()), (task_integrate_orders, ())]
     for name in FAMILIES:
         ts.append((task_rules, (name, nmax)))
